@@ -220,7 +220,9 @@ class UnitSkipRule(Rule):
         self.skipped_rules = skipped_rules
 
     def __eq__(self, other):
-        return isinstance(other, type(self)) and self.skipped_rules == other.skipped_rules
+        # Two rules that skip the same rules are still different rules if they rewrite different symbols
+        # (a: b and d: b both lead to 'skipped b'); _remove_unit_rule removes what compares equal.
+        return isinstance(other, type(self)) and Rule.__eq__(self, other) and self.skipped_rules == other.skipped_rules
 
     __hash__ = Rule.__hash__
 
